@@ -60,22 +60,32 @@ func (f Fwd) destID() (int, string) {
 // record adds one successful transfer (in A, out A-Σfees; one entry: the denom is unchanged by fees).
 func (m statsModel) record(t TransferSpec) statsModel {
 	A, _ := parseIntLikeSDK(t.Amount)
-	fr := feeRef(A, t.Fees)
-	out := new(big.Int).Sub(A, fr.Total)
 	dp, dc := t.Fwd.destID()
 	route := fmt.Sprintf("1:%s|%d:%s", t.Chan, dp, dc)
-	k := route + "|" + t.Base
 	n := m.clone()
-	cur, ok := n.Amt[k]
-	if !ok {
-		cur = statAmt{new(big.Int), new(big.Int)}
+	add := func(denom string, in, out *big.Int) {
+		k := route + "|" + denom
+		cur, ok := n.Amt[k]
+		if !ok {
+			cur = statAmt{new(big.Int), new(big.Int)}
+		}
+		cur.In.Add(cur.In, in)
+		cur.Out.Add(cur.Out, out)
+		n.Amt[k] = cur
+		if cur.In.Cmp(maxU256) > 0 || cur.Out.Cmp(maxU256) > 0 {
+			n.Undefined[k] = true
+			n.Undefined[route] = true // the count of this route may or may not be kept once an amount is out of range
+		}
 	}
-	cur.In.Add(cur.In, A)
-	cur.Out.Add(cur.Out, out)
-	n.Amt[k] = cur
-	if cur.In.Cmp(maxU256) > 0 || cur.Out.Cmp(maxU256) > 0 {
-		n.Undefined[k] = true
-		n.Undefined[route] = true // the count of this route may or may not be kept once an amount is out of range
+	if t.Fwd.SwapFirst {
+		// swapT: x of Base -> 2x uusdc, then the fee list on the running (uusdc) amount: two entries
+		run := new(big.Int).Mul(A, big.NewInt(2))
+		fr := feeRef(run, t.Fees)
+		add(t.Base, A, new(big.Int))
+		add(denomUSDC, new(big.Int), new(big.Int).Sub(run, fr.Total))
+	} else {
+		fr := feeRef(A, t.Fees)
+		add(t.Base, A, new(big.Int).Sub(A, fr.Total))
 	}
 	n.Cnt[route]++
 	return n
@@ -314,6 +324,48 @@ func checkC12(tier string) *Report {
 		}
 	}
 	x.RunOn(worlds)
+	// ---- second exploration: denomination-changing action (two entries per transfer), instrumented stand
+	{
+		sw, err := buildWorlds(numWorkers())
+		if err != nil {
+			rep.HarnessError("fixture: %v", err)
+			return rep
+		}
+		for _, w := range sw {
+			in, err := NewInstr(w, true)
+			if err != nil {
+				rep.HarnessError("instr: %v", err)
+				return rep
+			}
+			w.UseInstr = in
+		}
+		w := sw[0]
+		orb := w.Orb.String()
+		swapFwd := func(f Fwd) Fwd { f.SwapFirst = true; f.Tag = "swap+" + f.String(); return f }
+		alpha2 := []Op{}
+		specs2 := map[string]TransferSpec{}
+		for _, t := range []TransferSpec{
+			{"channel-0", denomOTH, "10", orb, swapFwd(w.FwdInternal(w.Bob)), nil},
+			{"channel-0", denomOTH, "25", orb, swapFwd(w.FwdInternal(w.Bob)), []FeeSpec{{To: w.Fee1.String(), Bps: 1000}}},
+			{"channel-0", denomOTH, "40", orb, swapFwd(w.FwdCCTP(0)), nil},
+			{"channel-0", denomUSDC, "63", orb, w.FwdInternal(w.Bob), nil},
+			{"channel-0", denomOTH, "9", orb, w.FwdInternal(w.Bob), nil},
+			{"channel-0", denomUSDC, "500", orb, w.FwdCCTP(0), []FeeSpec{{To: w.Fee1.String(), Fixed: "7"}}},
+			{"channel-1", denomOTH, "11", orb, swapFwd(w.FwdInternal(w.Bob)), nil},
+		} {
+			op := w.OpRecv(t.Label(), t.Pkt())
+			specs2[op.Label] = t
+			alpha2 = append(alpha2, op)
+		}
+		alpha2 = append(alpha2, w.OpRecv("swap-refused(hyp3)", NewPkt("channel-0", denomOTH, "5", orb, MemoJSON(w.FwdHyp(3), swapActionJSON))))
+		saveAlpha, saveSpecs := alpha, specs
+		alpha, specs = alpha2, specs2
+		before := rep.Counters["states"]
+		x2 := &Explorer{Rep: rep, Prefix: alpha2, Depth: depth, Budget: x.Budget, ModelInit: x.ModelInit, ModelStep: x.ModelStep, OnTransition: x.OnTransition}
+		x2.RunOn(sw)
+		rep.Extra["swap_exploration_states"] = rep.Counters["states"] - before
+		alpha, specs = saveAlpha, saveSpecs
+	}
 	rep.Guard(rep.Outcomes["successful-transfer"] > 100 && rep.Outcomes["no-stat-change-expected"] > 100, "outcome classes missing: %v", rep.Outcomes)
 	rep.Guard(rep.Counters["states"] >= 200, "too few states: %d", rep.Counters["states"])
 	return rep
